@@ -461,6 +461,9 @@ func (a *Allocation) Decode(r io.Reader) error {
 			return errors.WithMessagef(err, "decoding backend index for asset %d", i)
 		}
 		a.Backends[i] = wallet.BackendID(id)
+		if !HasBackend(a.Backends[i]) {
+			return errors.Errorf("decoding asset %d: unknown backend id %d", i, id)
+		}
 		asset := NewAsset(a.Backends[i])
 		if err := perunio.Decode(r, asset); err != nil {
 			return errors.WithMessagef(err, "decoding asset %d", i)
